@@ -173,6 +173,20 @@ pub fn run(ctx: &Ctx) -> Report {
     }
     let st = explore(&ctx.pool, jobs, j);
     rep.part("more files than RLIMIT_NOFILE=1024 allows to hold open", st, serde_json::json!({}));
+    // --fsync: syncing must not keep descriptors (or threads) around per file
+    let mut jobs = vec![];
+    for d in drivers() {
+        for n in [280usize, 560] {
+            let s = Arc::new(Scenario::new(&format!("fds-fsync-{}-w2-n{}", d, n), tree(n), &["-r", "--fsync", "--driver", d, "-w", "2", "src", "dst"]));
+            let os = orders(d, 2);
+            for mut sp in [RunSpec::base(Policy::P0), RunSpec::base(Policy::P1), RunSpec::base(Policy::Prio(os[0].clone())), RunSpec::base(Policy::Prio(os.last().unwrap().clone())), RunSpec::base(Policy::Prio(os[os.len() / 2].clone()))] {
+                sp.step_limit = 3_000_000;
+                jobs.push((s.clone(), sp, 0usize));
+            }
+        }
+    }
+    let st = explore(&ctx.pool, jobs, j);
+    rep.part("--fsync with 280 / 560 files", st, serde_json::json!({}));
     // depth instead of width: one file per level of a 300-level chain
     let mut jobs = vec![];
     for d in drivers() {
